@@ -5,7 +5,7 @@ let table : (string * (tproj * (config -> trace -> violation list) * skipper)) l
   ("C01", (tpi_C01, p_C01, skip_limit));
   ("C02", (lift pi_C02, p_C02, skip_limit));
   ("C03", (pi_C03, p_C03, skip_limit));
-  ("C04", (lift pi_C04, p_C04, skip_limit));
+  ("C04", (lift pi_C04, p_C04_full, skip_limit));
   ("C05", (tpi_C05, p_C05, skip_limit));
   ("C06", (lift pi_C06, p_C06, skip_limit));
   ("C07", (lift pi_C07, p_C07, skip_limit));
